@@ -118,6 +118,15 @@ func runA(op string, cj Ctx, xj, yj Dec, q int, al string, pre Dec) (out AOut) {
 		fl, err = c.Ln(d, x)
 	case "log10":
 		fl, err = c.Log10(d, x)
+	// Decimal methods (no Context involved)
+	case "dneg":
+		d.Neg(x)
+	case "dabs":
+		d.Abs(x)
+	case "dset":
+		d.Set(x)
+	case "dreduce":
+		_, out.Cnt = d.Reduce(x)
 	default:
 		panic("unknown op " + op)
 	}
@@ -189,8 +198,8 @@ func init() {
 		arithS(g, []string{"quoint", "rem"}, []string{"quantize", "tointx", "tointv", "ceil", "floor", "reduce"}, true)
 	}
 	drivers["reduceL"] = func(g *G) {
-		arithS(g, nil, []string{"reduce"}, true)
-		arithLInt(g, []string{"reduce"})
+		arithS(g, nil, []string{"reduce", "dreduce"}, true)
+		arithLInt(g, []string{"reduce", "dreduce"})
 		// precision 0 (rounding disabled): exact
 		for i := 0; i < g.pick(3000, 100000); i++ {
 			c := Ctx{P: 0, Emin: -100000, Emax: 100000, R: modeNames[g.R.Intn(8)]}
@@ -431,7 +440,8 @@ func init() {
 				}
 			}
 		}
-		un := []string{"abs", "neg", "round", "quantize", "tointx", "tointv", "ceil", "floor", "reduce", "sqrt", "cbrt", "exp", "ln", "log10"}
+		un := []string{"abs", "neg", "round", "quantize", "tointx", "tointv", "ceil", "floor", "reduce", "sqrt", "cbrt", "exp", "ln", "log10",
+			"dneg", "dabs", "dset", "dreduce"}
 		bin := []string{"add", "sub", "mul", "quo", "quoint", "rem", "cmp", "pow"}
 		for _, c := range ctxs {
 			for _, x := range vals {
